@@ -1839,3 +1839,164 @@ func vgSPEnumerate() []*vgSPSpec {
 	}
 	return out
 }
+
+// ---------------------------------------------------------------------------------------------
+// fifth family: method and interface signatures spelled with the alias names of basic types
+//
+//	type S struct{}; func (r S|*S) put(<pos with A>) ...; type i interface{ put(<pos with B>) ... }
+//	func Use() { var _ i = S{} | &S{} }
+//
+// (A, B) range over {byte,uint8}^2, {rune,int32}^2, {any,interface{}}^2; positions: parameter,
+// result, slice element, map key and value, pointer, func parameter, and a type-parameter binding
+// (func (r H[T]) put(x T, y T) against put(x A, y B), assigned from H[A]). The unexported method is
+// reachable only through implicit interface satisfaction.
+
+type vgBASpec struct {
+	Class   int  `json:"class"`
+	A       int  `json:"a"`
+	B       int  `json:"b"`
+	Pos     int  `json:"pos"`
+	PtrRecv bool `json:"ptr,omitempty"`
+}
+
+var vgBAClasses = [...][2]string{{"byte", "uint8"}, {"rune", "int32"}, {"any", "interface{}"}}
+var vgBAPosNames = [...]string{"param", "result", "slice", "map", "pointer", "func", "typeparam"}
+
+func (s *vgBASpec) Key() string {
+	k := fmt.Sprintf("BA:%s/%s,%s", vgBAClasses[s.Class][s.A], vgBAClasses[s.Class][s.B], vgBAPosNames[s.Pos])
+	if s.PtrRecv {
+		k += ",ptr"
+	}
+	return k
+}
+
+func (s *vgBASpec) Source() string {
+	a, b := vgBAClasses[s.Class][s.A], vgBAClasses[s.Class][s.B]
+	sig := func(t string) string {
+		switch s.Pos {
+		case 0:
+			return "put(x " + t + ")"
+		case 1:
+			return "put() " + t
+		case 2:
+			return "put(x []" + t + ")"
+		case 3:
+			if s.Class == 2 {
+				return "put(x map[string]" + t + ")"
+			}
+			return "put(x map[" + t + "]" + t + ")"
+		case 4:
+			return "put(x *" + t + ")"
+		default:
+			return "put(x func(" + t + "))"
+		}
+	}
+	var sb strings.Builder
+	sb.WriteString("package p\n\n")
+	star := ""
+	amp := ""
+	if s.PtrRecv {
+		star, amp = "*", "&"
+	}
+	if s.Pos == 6 {
+		sb.WriteString("type H[T any] struct {\n}\n\nfunc (r " + star + "H[T]) put(x T, y T) {\n}\n\n")
+		sb.WriteString("type i interface {\n\tput(x " + a + ", y " + b + ")\n}\n\n")
+		sb.WriteString("func Use() {\n\tvar _ i = " + amp + "H[" + a + "]{}\n}\n")
+		return sb.String()
+	}
+	sb.WriteString("type S struct {\n}\n\nfunc (r " + star + "S) " + sig(a) + " {\n")
+	if s.Pos == 1 {
+		sb.WriteString("\treturn *new(" + a + ")\n")
+	}
+	sb.WriteString("}\n\ntype i interface {\n\t" + sig(b) + "\n}\n\n")
+	sb.WriteString("func Use() {\n\tvar _ i = " + amp + "S{}\n}\n")
+	return sb.String()
+}
+
+func vgBAEnumerate() []*vgBASpec {
+	var out []*vgBASpec
+	for pos := 0; pos < len(vgBAPosNames); pos++ {
+		for class := 0; class < len(vgBAClasses); class++ {
+			for a := 0; a < 2; a++ {
+				for b := 0; b < 2; b++ {
+					for _, ptr := range []bool{false, true} {
+						out = append(out, &vgBASpec{Class: class, A: a, B: b, Pos: pos, PtrRecv: ptr})
+					}
+				}
+			}
+		}
+	}
+	return out
+}
+
+// ---------------------------------------------------------------------------------------------
+// sixth family: struct-embedding graphs with cycles through pointer embedding
+//
+//	type a struct{ *b [leaf] }; type b struct{ *a [leaf] }          2-cycle, or a -> b -> d -> a
+//	type c struct{ X int | x int }                                    leaf, embedded by value in one cycle member (or in none)
+//	type T struct{ a | *a | b ... }                                   exported outside struct embedding one cycle member
+//
+// The exported field (rule 6.5) is reachable from T's embedded field only through the cycle.
+
+type vgECSpec struct {
+	Cycle   int  `json:"cycle"`   // 2 or 3
+	LeafExp bool `json:"leafexp"` // leaf field exported
+	LeafAt  int  `json:"leafat"`  // cycle member embedding the leaf; -1 none
+	Outside int  `json:"outside"` // cycle member embedded by T
+	OutPtr  bool `json:"outptr,omitempty"`
+}
+
+var vgECNames = [...]string{"a", "b", "d"}
+
+func (s *vgECSpec) Key() string {
+	k := fmt.Sprintf("EC:cycle%d,leaf@%d", s.Cycle, s.LeafAt)
+	if s.LeafExp {
+		k += ",X"
+	} else {
+		k += ",x"
+	}
+	k += ",T>" + vgECNames[s.Outside]
+	if s.OutPtr {
+		k += ",ptr"
+	}
+	return k
+}
+
+func (s *vgECSpec) Decls() []vgDecl {
+	var out []vgDecl
+	add := func(src string) { out = append(out, vgDecl{Obj: len(out), Src: src}) }
+	for m := 0; m < s.Cycle; m++ {
+		src := "type " + vgECNames[m] + " struct {\n\t*" + vgECNames[(m+1)%s.Cycle] + "\n"
+		if s.LeafAt == m {
+			src += "\tc\n"
+		}
+		add(src + "}")
+	}
+	if s.LeafExp {
+		add("type c struct {\n\tX int\n}")
+	} else {
+		add("type c struct {\n\tx int\n}")
+	}
+	e := vgECNames[s.Outside]
+	if s.OutPtr {
+		e = "*" + e
+	}
+	add("type T struct {\n\t" + e + "\n}")
+	return out
+}
+
+func vgECEnumerate() []*vgECSpec {
+	var out []*vgECSpec
+	for cycle := 2; cycle <= 3; cycle++ {
+		for _, exp := range []bool{true, false} {
+			for at := -1; at < cycle; at++ {
+				for o := 0; o < cycle; o++ {
+					for _, ptr := range []bool{false, true} {
+						out = append(out, &vgECSpec{Cycle: cycle, LeafExp: exp, LeafAt: at, Outside: o, OutPtr: ptr})
+					}
+				}
+			}
+		}
+	}
+	return out
+}
